@@ -1,4 +1,5 @@
 import Pyunicorn.Lemmas.CrossNsiWhole
+import Mathlib.Algebra.Order.BigOperators.Group.List
 import Pyunicorn.Generated.ArithC11
 import Pyunicorn.Generated.StructC11
 /-!
@@ -1279,6 +1280,35 @@ theorem whole_nsi_global_clustering (A : Adj) (hA : Symm A) (hloop : ∀ a, A a 
   simp only [wsum, sum_perm_range h]
   simp only [mul_comm]
 
+/-- with positive node weights every n.s.i. degree is positive (`k*_v ≥ w_v`): the guard `k*_v ≠ 0`
+of `whole_nsi_local_clustering` holds for every admissible weight vector -/
+theorem nsiOutdeg_pos (A : Adj) (w : Nat → Rat) (hw : ∀ i, 0 < w i) (n v : Nat) (hv : v < n) :
+    0 < Net.nsiOutdeg n A w v := by
+  unfold Net.nsiOutdeg Net.sumToQ
+  have hnn : ∀ x ∈ (List.range n).map (fun j => if Net.aplus A v j then w j else 0), (0 : Rat) ≤ x := by
+    intro x hx
+    simp only [List.mem_map] at hx
+    obtain ⟨j, _, rfl⟩ := hx
+    split
+    · exact le_of_lt (hw j)
+    · exact le_refl 0
+  have hmem : w v ∈ (List.range n).map (fun j => if Net.aplus A v j then w j else 0) := by
+    simp only [List.mem_map, List.mem_range]
+    exact ⟨v, hv, by simp [Net.aplus]⟩
+  exact lt_of_lt_of_le (hw v) (List.single_le_sum hnn _ hmem)
+
+/-- the whole-network limit of the n.s.i. local clustering for positive node weights -/
+theorem whole_nsi_local_clustering_pos (A : Adj) (hA : Symm A) (hloop : ∀ a, A a a = false)
+    (w : Nat → Rat) (hw : ∀ i, 0 < w i) (n : Nat) (L : List Nat) (h : L.Perm (List.range n)) :
+    nsiCrossLocalClustering A w L L = L.map (Net.nsiLocalClustering n A w)
+      ∧ nsiCrossGlobalClustering A w L L = netNsiGlobalClustering n A w := by
+  have hk : ∀ i ∈ L, Net.nsiOutdeg n A w i ≠ 0 := by
+    intro i hi
+    have hin : i < n := List.mem_range.mp (h.mem_iff.mp hi)
+    exact ne_of_gt (nsiOutdeg_pos A w hw n i hin)
+  exact ⟨whole_nsi_local_clustering A hA hloop w n L h hk,
+    whole_nsi_global_clustering A hA hloop w n L h hk⟩
+
 /-- **whole-network limit of the n.s.i. transitivity**: on an undirected network
 `nsi_cross_transitivity(L, L)` with `L` any ordering of all nodes is `Network.nsi_transitivity()`:
 `Σ_v w_v Σ_{p,q} A⁺[v,p] A⁺[v,q] A⁺[p,q] w_p w_q = tr((A⁺D_w)³)` and
@@ -1462,6 +1492,15 @@ theorem crossCloseness_perm_right (N : Nat) (D : Dist) (L1 : List Nat) {L2 L2' :
   intro a _
   simp only [Function.comp_def, List.map_map]
   rw [(h.map fun b => (D a b).getD (((N : Int) - 1 : Int) : Rat)).sum_eq]
+
+/-- the n.s.i. closeness of a node does not depend on the order of the second list -/
+theorem nsiCrossCloseness_perm_right (N : Nat) (D : Dist) (w : Nat → Rat) (L1 : List Nat)
+    {L2 L2' : List Nat} (h : L2.Perm L2') :
+    nsiCrossCloseness N D w L1 L2 = nsiCrossCloseness N D w L1 L2' := by
+  unfold nsiCrossCloseness wsum
+  apply List.map_congr_left
+  intro a _
+  rw [(h.map fun b => nsiDist N D a b * w b).sum_eq, (h.map w).sum_eq]
 
 /-- **`local_efficiency` = definition**: without a zero distance between the groups, entry `a`
 is the mean over `b ∈ L2` of `1/d_ab` with unreachable nodes contributing `0`. -/
